@@ -246,7 +246,8 @@ def z2_cursor_commands(F, R, M, roles):
             continue
         sg = supergraph(F, b['id'], opaque=lambda t, bb: bb['id'] not in cur, tag='c20cur')
         try:
-            paths = [p for p in PathEnum(sg).run() if not p.panicked and err_variant(p.ret) == 'Ok']
+            # successful paths, including those that return the request helper's own result
+            paths = [p for p in PathEnum(sg).run() if not p.panicked and err_variant(p.ret) != 'Err' and any(e[0] == 'call' and e[2] in req_ids for e in p.effects)]
         except PathLimit as e:
             R.abstain('Z2', '%s:cursor-command' % b['name'], str(e), fn_site(F, b['id']))
             continue
@@ -383,7 +384,16 @@ def z3_z4_gpu(F, R, M, roles):
                         x[0] == 'call' and F.bodies.get(x[2], {}).get('impl_adt') == M.dma_adt for x in deep_subterms(S, dst)):
                     copies.append(c_.id)
             tr = [n.id for n in calls['transfer_to_host_2d']]
-            okc = bool(copies) and all(sg.always_before(copies, t_) for t_ in tr)
+            if okpaths is not None:
+                # path-enumerated: on every successful path a copy precedes the (first) transfer - an inlined private helper's early
+                # error return is then not merged with its success
+                okc = bool(copies) and bool(okpaths)
+                for p in okpaths:
+                    seq = [e[1] for e in p.effects if e[0] == 'call' and (e[1] in copies or e[1] in tr)]
+                    if not any(x in tr for x in seq) or seq[0] in tr:
+                        okc = False
+            else:
+                okc = bool(copies) and all(sg.always_before(copies, t_) for t_ in tr)
             R.check(okc, 'Z3', '%s:image-copied-before-transfer' % b['name'], fn_site(F, b['id']), 'the caller\'s image is copied into the backing before the transfer',
                     '%s transfers the backing to the host without first copying the caller\'s image into it: the device shows the zeroed allocation' % b['name'])
         # an existing backing is torn down exactly on the paths where one exists: on a successful path on which the stored region
